@@ -145,7 +145,7 @@ impl<F: Float, R> ParamGuard for TSneParams<F, R> {
 
     /// Validates parameters
     fn check_ref(&self) -> Result<&Self::Checked, Self::Error> {
-        if self.0.perplexity.is_negative() {
+        if self.0.perplexity < F::zero() {
             Err(TSneError::NegativePerplexity)
         } else if self.0.approx_threshold.is_negative() {
             Err(TSneError::NegativeApproximationThreshold)
